@@ -5,6 +5,7 @@ package ed25519
 
 import (
 	"crypto"
+	"crypto/sha512"
 	"fmt"
 	"math/big"
 	"testing"
@@ -62,6 +63,11 @@ func bmulL(k int64) *big.Int { return new(big.Int).Mul(ref.L, big.NewInt(k)) }
 
 func seedOf(i int) []byte {
 	s := make([]byte, 32)
+	if i < -1 {
+		h := sha512.Sum512([]byte(fmt.Sprintf("verif seed %d", -i)))
+		copy(s, h[:32])
+		return s
+	}
 	if i < 0 {
 		for j := range s {
 			s[j] = 0xff
